@@ -1,9 +1,23 @@
 (** C10 — Object-store cleanup never deletes history that is still needed.
-    The theorems cover every decision cleanup takes from what it read (the
+
+    Two layers.  (1) Every decision a cleanup takes from what it read (the
     value of [latest], read first; the listing of versions; the listing of
-    snapshots), for all listings.  Interleavings with other clients are covered
-    by the correspondence check; see DESIGN.md for the one known finding. *)
-From TC Require Import Model.Cloud Proofs.CloudP.
+    snapshots), for all listings.  (2) The inductive invariant [CInv] of
+    Proofs/CleanupInvP.v over ALL schedules of any number of clients running
+    add-version, get-child-version, add-/get-snapshot and cleanup one
+    object-store request at a time, with drops and lost replies anywhere: the
+    chain a cleanup reconstructs from its (possibly stale, paged) listing is a
+    piece of the true chain; what it deletes as a race loser can never join
+    the chain (and an add-version whose object was removed loses its swap);
+    every chain version from the cut onward keeps its object; the cut lies
+    behind a snapshot that is still stored -- so a fresh replica can
+    reconstruct the latest state and a replica based on a retained version
+    finds the next one.  Which of several stored snapshots get-snapshot hands
+    out is not part of these theorems: see the known finding in DESIGN.md.
+    Assumptions written into the system: as for C09 (parents named by
+    add-version are the nil version or a version that has been latest; ids
+    are fresh). *)
+From TC Require Import Model.Cloud Proofs.CloudP Proofs.CleanupInvP.
 
 (** (a) A version is deleted as garbage only if its parent has a different
     child on the chain known from [latest]: it lost the race for that parent
@@ -33,7 +47,61 @@ Theorem C10_old_versions_are_covered : forall threshold vers chain s p c,
   (exists t, creation_of vers c = Some t /\ (t < threshold)%N) /\ (c, p) ∈ chain.
 Proof. exact old_versions_are_covered. Qed.
 
+(** (d) The invariant holds in every state reachable by any schedule. *)
+Theorem C10_invariant_every_schedule : forall rank pagesz threshold (evs : list cev),
+  CInv (fold_left (cstep rank pagesz threshold) evs csys0).
+Proof. exact CInv_run. Qed.
+
+(** Every chain version from the cut onward is still stored as the child of its
+    predecessor. *)
+Theorem C10_retained_versions : forall rank pagesz threshold evs k c,
+  let s := fold_left (cstep rank pagesz threshold) evs csys0 in
+  c_hist s !! k = Some c -> (c_cut s <= k)%nat ->
+  exists p pl, c_sub s !! c = Some (p, pl) /\ is_Some (o_vers (c_store s) !! (p, c))
+               /\ (forall k', k = S k' -> c_hist s !! k' = Some p) /\ (k = 0%nat -> p = 0%N).
+Proof. exact retained_versions. Qed.
+
+(** Versions are only cut off behind a snapshot that is still stored. *)
+Theorem C10_cut_is_behind_a_stored_snapshot : forall rank pagesz threshold evs,
+  let s := fold_left (cstep rank pagesz threshold) evs csys0 in
+  (0 < c_cut s)%nat ->
+  exists b kb, c_best s = Some b /\ b ∈ dom (o_snaps (c_store s)) /\ c_hist s !! kb = Some b
+               /\ (c_cut s <= S kb)%nat.
+Proof. exact cut_is_behind_a_stored_snapshot. Qed.
+
+(** A fresh replica can reconstruct the latest state: all versions are stored,
+    or a snapshot of a chain version and all versions after it. *)
+Theorem C10_chain_reconstructible : forall rank pagesz threshold evs,
+  let s := fold_left (cstep rank pagesz threshold) evs csys0 in
+  (c_cut s = 0%nat /\ forall k c, c_hist s !! k = Some c -> exists p pl, c_sub s !! c = Some (p, pl) /\ is_Some (o_vers (c_store s) !! (p, c)))
+  \/ exists b kb, b ∈ dom (o_snaps (c_store s)) /\ c_hist s !! kb = Some b
+       /\ forall k c, (kb < k)%nat -> c_hist s !! k = Some c ->
+            exists p pl, c_sub s !! c = Some (p, pl) /\ is_Some (o_vers (c_store s) !! (p, c)).
+Proof. exact chain_reconstructible. Qed.
+
+(** A replica based on a retained version finds the next version. *)
+Theorem C10_retained_base_finds_child : forall rank pagesz threshold evs k c c',
+  let s := fold_left (cstep rank pagesz threshold) evs csys0 in
+  c_hist s !! k = Some c -> c_hist s !! S k = Some c' -> (c_cut s <= S k)%nat ->
+  exists pl t, o_vers (c_store s) !! (c, c') = Some (pl, t) /\ c_sub s !! c' = Some (c, pl).
+Proof. exact retained_base_finds_child. Qed.
+
+(** What a cleanup deletes as a race loser is not on the chain, and an
+    add-version that has lost can no longer swap. *)
+Theorem C10_loser_not_on_chain : forall v d, Core v -> loser v d -> d.2 ∉ v_hist v.
+Proof. exact loser_not_on_chain. Qed.
+
+Theorem C10_lost_cannot_swap : forall v l, Core v -> lost v l -> v_latest v <> l.
+Proof. exact lost_not_latest. Qed.
+
 Print Assumptions C10_losers_have_lost.
 Print Assumptions C10_old_snapshots_are_older.
 Print Assumptions C10_latest_snapshot_on_chain.
 Print Assumptions C10_old_versions_are_covered.
+Print Assumptions C10_invariant_every_schedule.
+Print Assumptions C10_retained_versions.
+Print Assumptions C10_cut_is_behind_a_stored_snapshot.
+Print Assumptions C10_chain_reconstructible.
+Print Assumptions C10_retained_base_finds_child.
+Print Assumptions C10_loser_not_on_chain.
+Print Assumptions C10_lost_cannot_swap.
